@@ -290,7 +290,9 @@ func (r *Run) check(vars []*smt.Term, extra ...*smt.Term) (smt.Result, map[strin
 		// second opinion before giving up: the same query as a standalone script on the other solvers
 		dirty := r.S.Dirty
 		script := r.S.Script(extra...)
-		if script != "" && !dirty {
+		if script != "" && !dirty && r.E.fallbackAllowed() {
+			fbStart := time.Now()
+			defer func() { r.E.noteFallbackTime(time.Since(fbStart)) }()
 			for _, fb := range r.E.Cfg.FallbackSolvers {
 				res2, m2 := smt.RunScriptModel(fb[0], fb[1:], script, vars, time.Duration(r.E.Cfg.FallbackMs)*time.Millisecond)
 				if res2 != smt.Unknown {
